@@ -41,9 +41,11 @@ type c15pool struct {
 }
 
 func newC15Pool() *c15pool {
+	// the zero values of the two types are values like any other (the library's own tests declare `var ctx data.IntMap`
+	// and pass it to parsers): they are the empty set and the empty map
 	return &c15pool{
-		sets: []c15set{{data.EmptyIntSet, nil, "EmptyIntSet"}},
-		maps: []c15map{{data.EmptyIntMap, map[int]int{}, "EmptyIntMap"}},
+		sets: []c15set{{data.EmptyIntSet, nil, "EmptyIntSet"}, {data.IntSet{}, nil, "IntSet{} (zero value)"}},
+		maps: []c15map{{data.EmptyIntMap, map[int]int{}, "EmptyIntMap"}, {data.IntMap{}, map[int]int{}, "IntMap{} (zero value)"}},
 	}
 }
 
@@ -85,6 +87,17 @@ func (o c15op) String() string {
 	default:
 		return fmt.Sprintf("NewIntMap(%v)", o.kv)
 	}
+}
+
+// tryApply applies o and reports a panic of the library as a string ("" = none)
+func (p *c15pool) tryApply(o c15op) (pan string) {
+	defer func() {
+		if e := recover(); e != nil {
+			pan = fmt.Sprint(e)
+		}
+	}()
+	p.apply(o)
+	return ""
 }
 
 func (p *c15pool) apply(o c15op) {
@@ -318,7 +331,10 @@ func c15exec(j run.Job, a *run.Acc) {
 				if c15sharing(o, p) {
 					shared++
 				}
-				p.apply(o)
+				if pan := p.tryApply(o); pan != "" {
+					a.Violate("panic", "panic", map[string]any{"history": append([]string{}, p.hist...), "panic": pan})
+					break
+				}
 				a.Count("operations", 1)
 				a.Count("values_reread", int64(len(p.sets)+len(p.maps)))
 				if kind, msg := p.verify(); kind != "" {
@@ -354,7 +370,13 @@ func c15exec(j run.Job, a *run.Acc) {
 					sh++
 				}
 				run := a.Begin()
-				p.apply(o)
+				if pan := p.tryApply(o); pan != "" {
+					if run {
+						a.Violate("panic", "panic", map[string]any{"history": append([]string{}, p.hist...), "panic": pan})
+					}
+					p.sets, p.maps, p.hist = p.sets[:ns], p.maps[:nm], p.hist[:nh]
+					continue
+				}
 				if run {
 					a.Count("operations", 1)
 					a.Count("values_reread", int64(len(p.sets)+len(p.maps)))
